@@ -808,6 +808,7 @@ func (c *caseCtx) certificateOracles(t *rapid.T, cm *committee) {
 		}
 		if c.nonTrivial() && k >= cm.required-2 && k <= cm.required+2 {
 			evid.NonTrivial(fmt.Sprintf("%s|%x|%d|%d|k=%d", c.key(), c.seed, c.round, cm.step, k))
+			evid.Sample("certificate", fmt.Sprintf("%s|%x|%d|%d|k=%d", c.key(), c.seed, c.round, cm.step, k))
 		}
 	}
 	// metamorphic, without looking at the reference: once accepted, adding a
@@ -881,6 +882,7 @@ func (c *caseCtx) certificateOracles(t *rapid.T, cm *committee) {
 			v = c.judge("junk "+kind, cc, c.prev, block)
 			if c.nonTrivial() {
 				evid.NonTrivial(fmt.Sprintf("%s|%x|%d|%d|junk=%s|base=%d|want=%d", c.key(), c.seed, c.round, cm.step, kind, baseK, want))
+				evid.Sample("certificate-with-junk", fmt.Sprintf("%s|%x|%d|%d|junk=%s|base=%d|want=%d", c.key(), c.seed, c.round, cm.step, kind, baseK, want))
 			}
 		}
 		evid.Count("junk." + kind + "." + v.class + "." + verdictName(v))
@@ -1127,6 +1129,7 @@ func (c *caseCtx) emissionOracle(t *rapid.T, cm *committee) {
 	hash, full, err := eng.VerifC07CountVotes(c.round, cm.step, c.prev.Hash(), c.chain.GetCommitteeVotesThreshold(c.vcLoad, cm.final), 1200*time.Millisecond)
 	if c.nonTrivial() {
 		evid.NonTrivial(fmt.Sprintf("%s|%x|%d|%d|emission kA=%d kB=%d feed=%d", c.key(), c.seed, c.round, cm.step, kA, kB, len(feed)))
+		evid.Sample("emission", fmt.Sprintf("%s|%x|%d|%d|emission kA=%d kB=%d feed=%d", c.key(), c.seed, c.round, cm.step, kA, kB, len(feed)))
 	}
 	if err != nil {
 		if len(quorum) > 0 {
